@@ -116,9 +116,9 @@ impl<'a> DeferredWriter<'a> {
     #[inline]
     pub fn buf_write_ptr(&mut self, len: usize) -> *mut u8 {
         let old_len = self.buf.len();
-        // SAFETY add cannot overflow as both are at most `isize::MAX`.
-        let new_len = old_len + len;
-        if new_len <= self.buf.capacity() {
+        // `len` is chosen by the caller and can be arbitrarily large, so compare it to the spare
+        // capacity instead of adding it to the length (which could overflow).
+        if len <= self.buf.capacity() - old_len {
             // SAFETY this returns the offset to `old_len` which is always in range
             unsafe { self.buf.as_mut_ptr().add(old_len) }
         } else {
